@@ -123,7 +123,13 @@ func e2eExec(c *e2eCase, work string, tr *vTrace, logLines bool) (*e2eResult, ma
 		"overwrite": o.Overwrite, "directory": o.Directory, "windows": o.Windows,
 		"nfaults": len(c.Plan.Faults), "stop": "none", "stopdel": false, "pause": c.Plan.Pause != nil,
 		"silence": c.Plan.Silence != nil, "timeout": o.Timeout}
-	reset["files"] = e2eOracleFiles(tops, o, proto)
+	{
+		fl := []map[string]any{}
+		for _, of := range e2eOracleFiles(tops, o, proto) {
+			fl = append(fl, map[string]any{"dir": of["dir"], "size": of["size"], "comp": of["comp"]})
+		}
+		reset["files"] = fl
+	}
 	if c.Plan.Stop != nil {
 		reset["stop"] = c.Plan.Stop.Role
 		reset["stopdel"] = c.Plan.Stop.Delete
@@ -198,6 +204,70 @@ func e2eExec(c *e2eCase, work string, tr *vTrace, logLines bool) (*e2eResult, ma
 			}
 		}
 	}
+	since := func(end time.Time) int64 {
+		if stopAt.IsZero() || end.IsZero() {
+			return -1
+		}
+		d := end.Sub(stopAt).Milliseconds()
+		if d < 0 {
+			d = 0
+		}
+		return d
+	}
+	// files the receiver verified (it acknowledged their MD5) must be intact after a plain stop
+	verified := 0
+	w.mu.Lock()
+	rcvDir := "s2c"
+	if !o.Upload {
+		rcvDir = "c2s"
+	}
+	for _, m := range w.msgs {
+		if m.Dir == rcvDir && m.Typ == "SUCC" && m.value()["k"] == "bin" {
+			verified++
+		}
+	}
+	w.mu.Unlock()
+	keptok := true
+	{
+		oracle := e2eOracleFiles(tops, o, proto)
+		k := 0
+		got := map[string]string{}
+		for _, e := range entries {
+			got[e["rel"].(string)] = e["got"].(string)
+		}
+		for _, of := range oracle {
+			if of["dir"].(bool) {
+				continue
+			}
+			if k >= verified {
+				break
+			}
+			k++
+			rel, _ := of["rel"].(string)
+			if sub, ok := of["subs"].([]string); ok && len(sub) > 0 {
+				for _, sr := range sub {
+					if got[sr] != "same" {
+						keptok = false
+					}
+				}
+			} else if got[rel] != "same" {
+				keptok = false
+			}
+		}
+	}
+	// entries of this transfer that are (still) at the destination; an entry that existed before
+	// and was not touched at all does not count
+	npresent := 0
+	postNow := e2eSnapshot(dst)
+	for _, e := range entries {
+		if e["got"] != "missing" && e["got"] != "unnamed" {
+			rel := e["rel"].(string)
+			if pv, ok := pre[rel]; ok && pv == postNow[rel] {
+				continue
+			}
+			npresent++
+		}
+	}
 	cres, sres := "fail", "fail"
 	if res.ClientOK {
 		cres = "ok"
@@ -206,11 +276,12 @@ func e2eExec(c *e2eCase, work string, tr *vTrace, logLines bool) (*e2eResult, ma
 		sres = "ok"
 	}
 	tr.Emit(map[string]any{"e": "ret", "run": c.ID, "role": "C", "res": cres, "hung": containsString(res.Hung, "client"),
-		"ms": res.ClientMs, "told": res.FailLines["client"] != "", "msg": res.ClientErr}, nil)
+		"ms": res.ClientMs, "since": since(res.ClientEnd), "told": res.FailLines["client"] != "", "msg": res.ClientErr}, nil)
 	tr.Emit(map[string]any{"e": "ret", "run": c.ID, "role": "V", "res": sres, "hung": containsString(res.Hung, "server"),
-		"ms": res.ServerMs, "told": res.FailLines["server"] != "", "msg": res.ServerErr}, nil)
+		"ms": res.ServerMs, "since": since(res.ServerEnd), "told": res.FailLines["server"] != "", "msg": res.ServerErr}, nil)
 	fs := map[string]any{"e": "fs", "run": c.ID, "n": len(entries), "nsame": nsame, "allsame": allSame && len(entries) > 0,
-		"extra": len(extra), "touched": len(touched), "shown": res.ShownOK, "nshown": len(names), "ntops": len(tops)}
+		"extra": len(extra), "touched": len(touched), "shown": res.ShownOK, "nshown": len(names), "ntops": len(tops),
+		"npresent": npresent, "keptok": keptok, "verified": verified}
 	tr.Emit(fs, nil)
 	detail := map[string]any{"entries": entries, "extra": extra, "touched": touched, "shown": names,
 		"client_err": res.ClientErr, "server_err": res.ServerErr, "hung": res.Hung}
@@ -269,8 +340,15 @@ func e2eOracleFiles(tops []string, o e2eOpts, proto int) []map[string]any {
 		if f == nil {
 			continue
 		}
-		e := map[string]any{"dir": f.IsDir, "size": f.Size, "comp": false}
+		e := map[string]any{"dir": f.IsDir, "size": f.Size, "comp": false, "rel": filepath.Join(f.RelPath...)}
 		if len(f.SubFiles) > 0 {
+			subs := []string{}
+			for _, sf := range f.SubFiles {
+				if !sf.IsDir {
+					subs = append(subs, filepath.Join(sf.RelPath...))
+				}
+			}
+			e["subs"] = subs
 			if r, err := t.newArchiveReader(f); err == nil {
 				e["dir"] = false
 				e["size"] = r.getSize()
